@@ -10,35 +10,40 @@
    byte-exact generator correspondence and judged on the reference machine. *)
 From Coq Require Import ZArith List String Bool.
 From Gigue Require Import Types Bits Isa Enc GenTables Builder BuilderTies Samplers Generator Machine MachineLemmas
-  SplitProofs FragProofs GenLemmas ImageSem CtorSpec C12Defs C12Proofs.
+  SplitProofs FragProofs GenLemmas ImageSem CtorSpec C12Defs C12Proofs GenWF GenWFProps Witness.
 Import ListNotations.
 Open Scope Z_scope.
 
 
-(* FULL statement (static part): every load / store of a method body goes
-   through the data register with a non-negative, naturally aligned offset, the
-   access lies inside the data image of length align(data_size, 8), and no
-   instruction of the image writes the data register. *)
-Definition body_mem_ok (c : config) (g : gi) : bool :=
-  match g with
-  | GI name _ _ _ rd rs1 imm =>
-      if Enc.mem name (b_I_INSTRUCTIONS_LOAD ++ b_RIMI_I_INSTRUCTIONS_LOAD)
-      then (rs1 =? c_data_reg c) && (imm mod width_of_name (if Enc.mem name b_RIMI_I_INSTRUCTIONS_LOAD then substring 0 (String.length name - 1) name else name) =? 0)
-           && (imm + width_of_name (if Enc.mem name b_RIMI_I_INSTRUCTIONS_LOAD then substring 0 (String.length name - 1) name else name) <=? align (c_data_size c) 8)
-           && negb (rd =? c_data_reg c)
-      else negb (rd =? c_data_reg c)
-  | GS name _ _ rs1 _ imm =>
-      (rs1 =? c_data_reg c) && (imm mod width_of_name (if Enc.mem name b_RIMI_S_INSTRUCTIONS then substring 0 (String.length name - 1) name else name) =? 0)
-      && (imm + width_of_name (if Enc.mem name b_RIMI_S_INSTRUCTIONS then substring 0 (String.length name - 1) name else name) <=? align (c_data_size c) 8)
-  | GR _ _ _ _ rd _ _ | GU _ _ rd _ | GJ _ _ rd _ => negb (rd =? c_data_reg c)
-  | GB _ _ _ _ _ _ => true
-  end.
+(* PROVED for every accepted configuration, every decision script and every
+   image the generator model emits (Layer A, no bound on sizes / counts /
+   depths): every load / store of EVERY instruction of EVERY method (random
+   body, prologue, epilogue, patched call stubs) either goes through the data
+   register with a non-negative, naturally aligned offset that fits the signed
+   12-bit immediate and whose access ends inside the data image of length
+   align(data_size, 8), or goes through sp / t3 (frame and shadow-stack slots);
+   and no method instruction writes the data register.
+     mem_discipline c g := data_access_ok c name rs1 imm || (rs1 = sp) || (rs1 = t3)
+     data_access_ok c name base imm := base = data_reg /\ 0 <= imm /\ imm mod width = 0 /\
+                                       imm + width <= align(data_size, 8) /\ imm <= 2047 /\ 0 < width *)
+Theorem C03_method_accesses : forall c script img, successful c script img ->
+  Forall (fun m => Forall (fun g => mem_discipline c g = true /\ negb (dest_of g =? c_data_reg c) = true)
+                          (m_instrs m)) (im_methods img).
+Proof. exact methods_access_discipline. Qed.
 
-Definition C03_body_accesses_statement : Prop :=
+(* the hypotheses are satisfiable: for each variant an accepted configuration
+   and a recorded decision script on which the model emits an image *)
+Theorem C03_nonvacuous : exists img, successful wcfg_rimifull wscript_rimifull img.
+Proof. exact witness_rimifull. Qed.
+
+(* STILL ONLY STATED (Layer B, execution of whole images): the dynamic reading
+   "no executed store lands in the interpreter / JIT image" for arbitrary
+   layouts and initial states. *)
+Definition C03_no_code_write_statement : Prop :=
   forall c script img, successful c script img ->
-  Forall (fun m => Forall (fun g => body_mem_ok c g = true)
-                          (firstn (Z.to_nat (m_body m)) (skipn (Z.to_nat (m_pro m)) (m_instrs m))))
-         (im_methods img).
+  forall bound L s0, Init c img bound L s0 ->
+  forall n s1 k, run (variant_of (c_variant c)) L n s0 = (s1, k) ->
+  match s1 with Fault FStoreCode _ => False | _ => True end.
 
 (* the arithmetic core, for ALL data sizes, draws and widths: the offset
    align(randint(0, min(size-8, 0x7FF)), width) is non-negative, aligned, fits
@@ -79,6 +84,8 @@ Theorem C03_ssp_discipline_partial :
   = true.
 Proof. exact rimi_shadow_discipline. Qed.
 
+Print Assumptions C03_method_accesses.
+Print Assumptions C03_nonvacuous.
 Print Assumptions C03_offset_in_bounds_partial.
 Print Assumptions C03_alignment_is_width_partial.
 Print Assumptions C03_no_write_data_reg_partial.
